@@ -2,3 +2,11 @@ import SparseV.Props.C02
 #print axioms SparseV.C02.normalize_slice_spec
 #print axioms SparseV.C02.normalize_slice_range
 #print axioms SparseV.C02.normalize_int_spec
+#print axioms SparseV.C02.normalize_slice_normalised
+#print axioms SparseV.C02.slice_selection_bijection
+#print axioms SparseV.C02.getitemN_get
+#print axioms SparseV.C02.getitemN_scalar
+#print axioms SparseV.C02.getitemN_scalar0d
+#print axioms SparseV.C02.getitem_sorted_promise
+#print axioms SparseV.C02.normalize_index_valid
+#print axioms SparseV.C02.getitem_basic
